@@ -277,6 +277,7 @@ def monitor_env():
         "HintNode": lambda e, s: view(e.xml_hint(survey=s)),
         "SectionInstance": lambda sec, s: view(type(sec).__mro__[[c.__name__ for c in type(sec).__mro__].index("Section")].xml_instance(sec, survey=s)),
         "SplitExt": lambda p: __import__("os").path.splitext(p),
+        "TagXml": lambda t: view(t.xml(survey=survey_of(t))),
         "BuiltControl": lambda q, s: view(q.build_xml(survey=s)),
         "ChildControl": lambda c: view(c.xml_control(survey=survey_of(c))),
         "LabelNode": lambda e, s: view(e.xml_label(survey=s)),
@@ -296,7 +297,7 @@ def monitor_env():
     }
     for k in ("Descendants", "XPathOf", "Subst", "SubstF", "SubstIn", "IovText", "IovFlag", "ElemBinds", "ElemDynDefault",
               "RepeatAncestors", "ChildInst", "TemplateInst", "TemplateNode", "FlatKids", "ElemFlat",
-              "SectionInstance", "is_a", "has_attr", "HintNode", "ChildControl", "LabelNode", "RepeatDynDefaults", "BuiltControl"):
+              "SectionInstance", "is_a", "has_attr", "HintNode", "ChildControl", "LabelNode", "RepeatDynDefaults", "BuiltControl", "TagXml"):
         env[k] = U(env[k])
     return env
 
@@ -328,6 +329,8 @@ MONITORED = [
     "pyxform.question.Question.xml_control",
     "pyxform.question.MultipleChoiceQuestion.build_xml",
     "pyxform.question.InputQuestion.build_xml",
+    "pyxform.question.OsmUploadQuestion.build_xml",
+    "pyxform.question.Tag.xml",
     "pyxform.question.TriggerQuestion.build_xml",
     "pyxform.question.UploadQuestion.build_xml",
     "pyxform.question.RangeQuestion.build_xml",
